@@ -22,6 +22,10 @@ RULE = ("cases = chain of 1..3 classes (attrs: slots x frozen x cache_hash x wea
         "synthetic module's own code (classes are exec'd inside the module, a quarter of them nested in a namespace class: __module__/__qualname__ arise as for a user), int/str/mutable-box valued -- int-valued fields hold, with probability 0.4, an unusual value instead: attr.NOTHING, None, "
         "NotImplemented, Ellipsis, False, 0, '', (), NaN, an int subclass, the cache field's name as a string, an instance of the same "
         "class (harness-only variation: the model sees opaque tokens) --, names shared between classes so fields are inherited and re-declared); "
+        "field names include private ones (`_p`; `_x`/`_y` with init=False, whose __init__ alias coincides with that of `x`/`y`) and explicit alias= "
+        "(preferably equal to the alias of an init=False field of the chain); chains whose init fields all have a plain default (the very object "
+        "standing for the value) or a factory, built without passing anything, and histories where a field is changed and set back to the same "
+        "object (all harness-only variation); "
         "plain classes without / with empty / with named __slots__; a fifth of the chains rooted at Exception with auto_exc=True (copied through "
         "BaseException.__reduce__ as cls(*args) + __setstate__(__dict__)); chains whose init fields all have default factories, left unpassed at "
         "construction (the factory yields the field's value while the harness builds an instance and a DIFFERENT value whenever it runs during "
@@ -76,7 +80,8 @@ SPECIALS = sorted(B.SPECIALS)
 
 
 def _fields(rng, n, pool=NAMES, p_init=0.85):
-    fs = [{"name": nm, "init": rng.random() < p_init, "kind": rng.choice(KINDS)} for nm in rng.sample(pool, min(n, len(pool)))]
+    fs = [{"name": nm, "init": rng.random() < p_init and nm not in ("_x", "_y"), "kind": rng.choice(KINDS)}
+          for nm in rng.sample(pool, min(n, len(pool)))]       # `_x` / `_y` share their __init__ alias with `x` / `y`: init=False
     return add_specials(fs, rng)
 
 
@@ -153,7 +158,7 @@ def rand_chain(rng, n=None):
     for k, c in enumerate(chain):
         if c["kind"] == "attrs" and R.hash_decision(chain, k) == "gen" and rng.random() < 0.55:
             c["cacheHash"] = True
-    return chain
+    return add_aliases(chain, rng)
 
 
 def as_exception_chain(chain):
@@ -167,6 +172,43 @@ def as_exception_chain(chain):
             c["gs"] = "none"
         out.append(c)
     return out
+
+
+def _default_alias(name):
+    return name.lstrip("_")
+
+
+def add_aliases(chain, rng, p=0.3):
+    """harness-only: explicit `alias=` on init fields -- preferably one that coincides with the __init__ alias of an
+    init=False field of the chain (legal: only init fields need distinct aliases), else a fresh name"""
+    decls = [f for c in chain for f in c["fields"]]
+    init_aliases = {_default_alias(f["name"]) for f in decls if f["init"]}
+    never_init = {f["name"] for f in decls} - {f["name"] for f in decls if f["init"]}
+    free = sorted({_default_alias(n) for n in never_init} - init_aliases)
+    for f in decls:
+        if f["init"] and rng.random() < p:
+            if free and rng.random() < 0.7:
+                f["alias"] = free.pop(rng.randrange(len(free)))
+            else:
+                f["alias"] = "al_" + _default_alias(f["name"])
+    return chain
+
+
+def with_defaults(chain, rng):
+    """harness-only: every init field gets a plain default (the very object that stands for its value) or a default
+    factory; with cfg.passArgs false the instance is built from its defaults alone"""
+    def fix(f):
+        if not f["init"]:
+            return f
+        g = dict(f)
+        if rng.random() < 0.7:
+            g["default"] = True
+        else:
+            g["factory"] = True
+        if g.get("special") in ("nothing", "inner"):      # NOTHING means "no default"; the class cannot default to its own instance
+            g["special"] = "none"
+        return g
+    return [dict(c, fields=[fix(f) for f in c["fields"]]) for c in chain]
 
 
 def with_factories(chain):
@@ -202,7 +244,8 @@ def histories(chain, rng, full):
 def cases_for_chain(chain, rng, full, exc=False):
     R.EXC[0] = exc
     has_unset = any(not f["init"] for f in B.leaf_fields(chain))
-    has_factory = any(f.get("factory") for f in B.leaf_fields(chain))
+    has_factory = any(f.get("factory") or f.get("default") for f in B.leaf_fields(chain))
+    names = R.names(chain)
     ops = list(OPS) + ([] if exc else legacy_ops(chain))
     hs = histories(chain, rng, full)
     if full:
@@ -219,7 +262,8 @@ def cases_for_chain(chain, rng, full, exc=False):
         case = {"chain": _settle_specials(chain, op, rng), "op": op, "hashedBefore": hashed, "mutate": m,
                 "assignUnset": True if has_unset else rng.random() < 0.5, "exc": exc, "mutInPlace": how == "inplace",
                 "cfg": {"mutateHow": how, "pickler": rng.choice(["c", "c", "py"]),
-                        "passArgs": (rng.random() < 0.3) if has_factory else True}}
+                        "passArgs": (rng.random() < 0.3) if has_factory else True,
+                        "touch": rng.choice(names) if m is None and names and rng.random() < 0.3 else None}}
         if R.wf(case):
             yield case
 
@@ -274,25 +318,32 @@ def gen_cases(tier, rng):
         for c in chain:
             add_specials(c["fields"], rng, 0.5)
             vary_front(c, rng)
-        yield from cases_for_chain(chain, rng, full)
+        add_aliases(chain, rng)
+        yield from cases_for_chain(with_defaults(chain, rng) if rng.random() < 0.25 else chain, rng, full)
     for rep in range(5 if not full else 40):
         for chain in shaped_chains(rng):
             if rng.random() < 0.2:
                 ch = as_exception_chain(chain)
                 yield from cases_for_chain(with_factories(ch) if rng.random() < 0.5 else ch, rng, False, exc=True)
             else:
-                yield from cases_for_chain(chain, rng, full and rep < 4)
+                add_aliases(chain, rng)
+                yield from cases_for_chain(with_defaults(chain, rng) if rng.random() < 0.2 else chain, rng, full and rep < 4)
     n = 3200 if not full else 200000
     for i in range(n):
         chain = rand_chain(rng)
         r = rng.random()
         if r < 0.2:          # exception classes (auto_exc), half of them with default factories left unpassed
             chain = as_exception_chain(chain)
-            if rng.random() < 0.5:
+            q = rng.random()
+            if q < 0.35:
                 chain = with_factories(chain)
+            elif q < 0.6:
+                chain = with_defaults(chain, rng)
             yield from cases_for_chain(chain, rng, False, exc=True)
-        elif r < 0.3:
+        elif r < 0.27:
             yield from cases_for_chain(with_factories(chain), rng, False)
+        elif r < 0.42:       # every field at its declared default (plain defaults and factories mixed)
+            yield from cases_for_chain(with_defaults(chain, rng), rng, False)
         else:
             yield from cases_for_chain(chain, rng, False)
 
@@ -323,7 +374,8 @@ def dist(case, obs):
         "exc": obs.get("exc") if isinstance(obs, dict) else "?",
         "cacheAfter": obs.get("cacheAfter") if isinstance(obs, dict) else "?",
         "front_end": leaf.get("api") + ("/" + leaf["front"] if leaf.get("front", "class") != "class" else "") + ("/nested" if leaf.get("nested") else ""),
-        "exception": ("auto_exc" if case.get("exc") else "no") + ("+factories" + ("" if case.get("cfg", {}).get("passArgs", True) else " unpassed") if any(f.get("factory") for f in B.leaf_fields(chain)) else ""),
+        "exception": ("auto_exc" if case.get("exc") else "no") + ("+defaults" + ("" if case.get("cfg", {}).get("passArgs", True) else " unpassed") if any(f.get("factory") or f.get("default") for f in B.leaf_fields(chain)) else ""),
+        "aliases": ("explicit" if any(f.get("alias") for f in B.leaf_fields(chain)) else "-") + ("+shared" if len({(f.get("alias") or f["name"].lstrip("_")) for f in B.leaf_fields(chain)}) < len(B.leaf_fields(chain)) else ""),
         "unusual_values": ",".join(sorted({f["special"] for f in B.leaf_fields(chain) if f.get("special")})) or "-",
     }
 
@@ -350,7 +402,7 @@ def _variants(case):
                 if c.get(k) != v:
                     yield dict(case, chain=chain[:i] + [dict(c, **{k: v})] + chain[i + 1:])
             for j, f in enumerate(c["fields"]):
-                for k, v in (("init", True), ("kind", "int"), ("special", None)):
+                for k, v in (("kind", "int"), ("special", None), ("alias", None)):
                     if f.get(k) != v:
                         fs = c["fields"][:j] + [dict(f, **{k: v})] + c["fields"][j + 1:]
                         yield dict(case, chain=chain[:i] + [dict(c, fields=fs)] + chain[i + 1:])
@@ -361,8 +413,8 @@ def _variants(case):
                     if not c2["slots"]:
                         c2["plainSlots"] = []
                     yield dict(case, chain=chain[:i] + [c2] + chain[i + 1:])
-    if any(f.get("factory") for c in chain for f in c["fields"]):
-        yield dict(case, chain=[dict(c, fields=[{k: v for k, v in f.items() if k != "factory"} for f in c["fields"]]) for c in chain],
+    if any(f.get("factory") or f.get("default") for c in chain for f in c["fields"]):
+        yield dict(case, chain=[dict(c, fields=[{k: v for k, v in f.items() if k not in ("factory", "default")} for f in c["fields"]]) for c in chain],
                    cfg=dict(case.get("cfg", {}), passArgs=True))
     if case["hashedBefore"]:
         yield dict(case, hashedBefore=False)
